@@ -662,60 +662,11 @@ func C07(c *core.Ctx) {
 				continue
 			}
 			seenFn[fn] = true
-			core.Instrs(fn, func(in ssa.Instruction) {
-				b, ok := in.(*ssa.BinOp)
-				if !ok || b.Op != token.MUL {
-					return
-				}
-				if nt, isN := b.Type().(*types.Named); !isN || nt.Obj().Name() != "Duration" {
-					return
-				}
-				var unit int64
-				var val ssa.Value
-				for _, pair := range [][2]ssa.Value{{b.X, b.Y}, {b.Y, b.X}} {
-					if k, isC := core.ConstInt(pair[1]); isC && k > 1 {
-						unit, val = k, pair[0]
-					}
-				}
-				if val == nil {
-					return
-				}
-				src := core.StripConv(val)
-				nMul++
-				bounded := &core.Atom{Name: "number ≤ longest Duration / unit", Match: func(cond ssa.Value) (int, int) {
-					op, x, y, okC := core.Cmp(cond)
-					if !okC || core.StripConv(x) != src {
-						return 0, 0
-					}
-					k, isC := core.ConstInt(core.StripConv(y))
-					if !isC {
-						// or a Duration divided by the same unit (any int64 / unit fits)
-						q, isQ := core.StripConv(y).(*ssa.BinOp)
-						if !isQ || q.Op != token.QUO {
-							return 0, 0
-						}
-						if d, isD := core.ConstInt(q.Y); !isD || d != unit {
-							return 0, 0
-						}
-						if nt, isN := q.Type().(*types.Named); !isN || nt.Obj().Name() != "Duration" {
-							return 0, 0
-						}
-					} else if k <= 0 || k > (1<<63-1)/unit {
-						return 0, 0
-					}
-					switch op {
-					case token.LEQ, token.LSS:
-						return 1, -1
-					case token.GTR, token.GEQ:
-						return -1, 1
-					}
-					return 0, 0
-				}}
-				g := core.Gate(fn, []ssa.Instruction{in}, pos(bounded))
-				if !(g.OK && g.PassEdges > 0) {
-					bad = core.FuncName(fn) + " at " + c.Pos(in)
-				}
-			})
+			n, b := durationScalings(c, fn)
+			nMul += n
+			if b != "" {
+				bad = b
+			}
 		}
 		c.Decide(bad == "", "R7.7", "decoded-period-bounded-before-scaling", "-", fmt.Sprintf("%d multiplications of a decoded number by a Duration unit in generated parsers, each behind an upper bound", nMul), "a generated parser scales a decoded 64-bit number to a time.Duration without an upper bound ("+bad+"): from 9223372036855 ms on the product wraps around to a negative duration — Data with such a FreshnessPeriod is stale the moment it is cached and a MustBeFresh lookup misses it although it is cached, unevicted and fresh")
 		c.Floor("R7.7", "scalings of a decoded number to a Duration in generated parsers", nMul, 3)
@@ -779,4 +730,66 @@ func C07(c *core.Ctx) {
 		c.Floor("R7.6", "table settings changed at run time", len(runtimeSet), 1)
 	}
 
+}
+
+// durationScalings: every multiplication, in fn, of a 64-bit number by a Duration unit
+// (time.Millisecond ...) must sit behind an upper bound on that number which the longest
+// Duration divided by the unit can hold. Returns the number of scalings and the first
+// unbounded one.
+func durationScalings(c *core.Ctx, fn *ssa.Function) (nMul int, bad string) {
+	core.Instrs(fn, func(in ssa.Instruction) {
+		b, ok := in.(*ssa.BinOp)
+		if !ok || b.Op != token.MUL {
+			return
+		}
+		if nt, isN := b.Type().(*types.Named); !isN || nt.Obj().Name() != "Duration" {
+			return
+		}
+		var unit int64
+		var val ssa.Value
+		for _, pair := range [][2]ssa.Value{{b.X, b.Y}, {b.Y, b.X}} {
+			if k, isC := core.ConstInt(pair[1]); isC && k > 1 {
+				unit, val = k, pair[0]
+			}
+		}
+		if val == nil {
+			return
+		}
+		src := core.StripConv(val)
+		nMul++
+		bounded := &core.Atom{Name: "number ≤ longest Duration / unit", Match: func(cond ssa.Value) (int, int) {
+			op, x, y, okC := core.Cmp(cond)
+			if !okC || !(core.StripConv(x) == src || core.Same(core.StripConv(x), src)) {
+				return 0, 0
+			}
+			k, isC := core.ConstInt(core.StripConv(y))
+			if !isC {
+				// or a Duration divided by the same unit (any int64 / unit fits)
+				q, isQ := core.StripConv(y).(*ssa.BinOp)
+				if !isQ || q.Op != token.QUO {
+					return 0, 0
+				}
+				if d, isD := core.ConstInt(q.Y); !isD || d != unit {
+					return 0, 0
+				}
+				if nt, isN := q.Type().(*types.Named); !isN || nt.Obj().Name() != "Duration" {
+					return 0, 0
+				}
+			} else if k <= 0 || k > (1<<63-1)/unit {
+				return 0, 0
+			}
+			switch op {
+			case token.LEQ, token.LSS:
+				return 1, -1
+			case token.GTR, token.GEQ:
+				return -1, 1
+			}
+			return 0, 0
+		}}
+		g := core.Gate(fn, []ssa.Instruction{in}, pos(bounded))
+		if !(g.OK && g.PassEdges > 0) {
+			bad = core.FuncName(fn) + " at " + c.Pos(in)
+		}
+	})
+	return nMul, bad
 }
